@@ -163,7 +163,15 @@ def parse_google_drive_url(url):
         if path[2] != "e":
             return None
 
+        # NOTE: "/d/e//pub" has no id
+        if not path[3]:
+            return None
+
         return GoogleDrivePublicLink(drive_type, path[3])
+
+    # NOTE: "/d//edit" has no id
+    if not path[2]:
+        return None
 
     return GoogleDriveFile(drive_type, path[2])
 
